@@ -8,7 +8,6 @@ import (
 	"go/types"
 	"maps"
 	"slices"
-	"sort"
 	"strconv"
 	"strings"
 
@@ -1118,23 +1117,30 @@ func (fc *funcConverter) convertToStmts(ssaFunc *ssa.Function) ([]ast.Stmt, erro
 		}
 	}
 
-	groupedVar := make(map[types.Type][]string)
-	for varName, varType := range f.Vars {
+	// Group the variables by type in a fixed order: ranging over f.Vars
+	// directly would make the declaration order depend on map iteration.
+	type varGroup struct {
+		typ   types.Type
+		names []string
+	}
+	var groupedVar []*varGroup
+	for _, varName := range slices.Sorted(maps.Keys(f.Vars)) {
+		varType := f.Vars[varName]
 		exists := false
-		for groupedType, names := range groupedVar {
-			if types.Identical(varType, groupedType) {
-				groupedVar[groupedType] = append(names, varName)
+		for _, group := range groupedVar {
+			if types.Identical(varType, group.typ) {
+				group.names = append(group.names, varName)
 				exists = true
 				break
 			}
 		}
 		if !exists {
-			groupedVar[varType] = []string{varName}
+			groupedVar = append(groupedVar, &varGroup{typ: varType, names: []string{varName}})
 		}
 	}
 	var specs []ast.Spec
-	for varType, varNames := range groupedVar {
-		typeExpr, err := fc.tc.Convert(varType)
+	for _, group := range groupedVar {
+		typeExpr, err := fc.tc.Convert(group.typ)
 		if err != nil {
 			return nil, err
 		}
@@ -1142,8 +1148,7 @@ func (fc *funcConverter) convertToStmts(ssaFunc *ssa.Function) ([]ast.Stmt, erro
 			Type: typeExpr,
 		}
 
-		sort.Strings(varNames)
-		for _, name := range varNames {
+		for _, name := range group.names {
 			spec.Names = append(spec.Names, ast.NewIdent(name))
 		}
 		specs = append(specs, spec)
